@@ -33,7 +33,7 @@ def make(cls, rnd):
         r = GS.gen_spacetime(rnd)
         if r is None:
             return None
-        return r, "plain", None
+        return r, "plain", getattr(r, "_extents", None)
     if cls == "metrics":
         from .gen import arch as GR
         r = GR.gen_metrics(rnd)
